@@ -25,7 +25,8 @@ def finishPoly (what : String) (model : Option (Aff Q)) (spec : List Q → Bool)
   for _ in [0:npts] do
     let x ← pVec
     let c ← pNat
-    let d ← pVecOpt
+    let dx ← pVecX
+    let d := dx.map XNum.toOpt
     -- exact membership in the returned polytope equals the prescribed membership
     if Poly.memb q x != spec x then
       return .propfail s!"[C14] {what}: point {showVec x} is {if spec x then "in" else "not in"} the set by definition but {if Poly.memb q x then "in" else "not in"} the returned polytope {showAff q}"
@@ -36,6 +37,14 @@ def finishPoly (what : String) (model : Option (Aff Q)) (spec : List Q → Bool)
       let near := (Poly.distanceRaw q x).any (fun v => absQ (v + tol) ≤ mkRat 1 1000000000000)
       if near then inexact := true
       else return .propfail s!"[C14] contains({showVec x}) = {c} on {showAff q} but the exact slack test says {want}"
+    -- distance(): a row `0·x ≤ b` is satisfied by all points (b > 0: +inf) or by none (b < 0: −inf)
+    for ((a, b), dv) in (q.rows.zip dx) do
+      if isZeroVec a then
+        match dv with
+        | .pinf => if b < 0 then return .propfail s!"[C14] distance({showVec x}): +inf for the row 0·x ≤ {b}, which no point satisfies (expected −inf)"
+        | .ninf => if b > 0 then return .propfail s!"[C14] distance({showVec x}): −inf for the row 0·x ≤ {b}, which every point satisfies (expected +inf)"
+        | .fin v => if b != 0 then return .propfail s!"[C14] distance({showVec x}): finite entry {v} for the zero row 0·x ≤ {b}"
+        | .nan => if b != 0 then return .propfail s!"[C14] distance({showVec x}): NaN for the zero row 0·x ≤ {b}"
     -- distance(): sign per row with a non-zero normal
     for ((a, b), dv) in (q.rows.zip d) do
       if !isZeroVec a then
